@@ -21,7 +21,7 @@ import ast
 from ..model import AnchorMissing, CannotAnalyse, walk_no_nested, Func, Cls
 from ..yang import YangModels
 from ..dataflow import local_defs, derives, names_in
-from .common import calls_to, kwarg, stmt_of, enclosing, site, key, root_name
+from .common import calls_to, kwarg, stmt_of, enclosing, site, key, root_name, resolved
 
 CONV = 'gnpy.tools.convert_legacy_yang'
 UTIL = 'gnpy.tools.yang_convert_utils'
@@ -698,5 +698,36 @@ def r9_alias_complete_and_dump(ctx):
     ctx.need('R9.alias-complete', 1)
     ctx.need('R9.dump-siblings', 1)
 
+def r12_parallel_lists(ctx):
+    """R12: parallel lists of a legacy document (frequencies with their loss coefficients, frequency offsets with their Raman / gain
+    values) become YANG entries pair by pair: where the converters walk them with zip, both are taken in the order they stand in -
+    none is sorted, reversed, sliced or de-duplicated on its own (that would attach each value to another abscissa whenever the
+    legacy list is not already in that order)"""
+    repo = ctx.repo
+    n = 0
+    for f in repo.module(UTIL).functions.values():
+        defs = local_defs(f.node)
+        for c in ast.walk(f.node):
+            if not (isinstance(c, ast.Call) and isinstance(c.func, ast.Name) and c.func.id == 'zip' and len(c.args) >= 2):
+                continue
+            n += 1
+
+            def shape(a):
+                a = resolved(defs, a)
+                if isinstance(a, ast.Call) and isinstance(a.func, ast.Name) and a.func.id in ('sorted', 'reversed', 'set', 'list', 'tuple'):
+                    inner = shape(a.args[0]) if a.args else ()
+                    return ((a.func.id,) if a.func.id not in ('list', 'tuple') else ()) + inner
+                if isinstance(a, ast.Subscript) and isinstance(a.slice, ast.Slice):
+                    return ('slice:' + ast.unparse(a.slice),) + shape(a.value)
+                return ()
+            shapes = [shape(a) for a in c.args]
+            # the same reversal / slice on every list keeps the pairs; a sort or a set never does (each list gets its own order)
+            ok = len(set(shapes)) == 1 and not any(t in ('sorted', 'set') for sh in shapes for t in sh)
+            ctx.check('R12.parallel-lists', f'{site(f, c)}', ok, key(f, 'zip|' + '|'.join(ast.unparse(resolved(defs, a))[:40] for a in c.args)),
+                      f'{f.name} pairs {ast.unparse(c)[:120]}: one of the parallel lists is re-ordered / cut on its own {shapes}, so a legacy '
+                      'document whose list is not in that order converts to other (frequency, value) pairs than it states')
+    ctx.need('R12.parallel-lists', 4)
+
+
 RULES = [('R2.accumulate', r2b_accumulators), ('R1.pairing', r1_pairing), ('R2.siblings', r2_siblings), ('R3.precision', r3_precision),
-         ('R4.loaders', r4_loaders), ('R5.aliases', r5_aliases), ('R6.no-value-filter', r6_no_value_filter), ('R7.range-round-trip', r7_range_round_trip), ('R8.loader-reads', r8_loader_reads), ('R9.alias-and-dump', r9_alias_complete_and_dump)]
+         ('R4.loaders', r4_loaders), ('R5.aliases', r5_aliases), ('R6.no-value-filter', r6_no_value_filter), ('R7.range-round-trip', r7_range_round_trip), ('R8.loader-reads', r8_loader_reads), ('R9.alias-and-dump', r9_alias_complete_and_dump), ('R12.parallel-lists', r12_parallel_lists)]
